@@ -200,7 +200,7 @@ def gen_meta(rng, feats, strict, perm=False):
         if 'blank' in feats and rng.random() < 0.4:
             lines.append(rng.choice(['', '   ', '\t', '# a comment line', '#', '   # indented comment']))
         if 'comment' in feats and rng.random() < 0.5:
-            st = st + rng.choice(['  # trailing', '#c', ' #', '\t# x = 1'])
+            st = st + rng.choice(['  # trailing', '#c', ' #', '\t# x = 1', '  # a # b', ' ## Z = 1'])
         lines.append(st)
     if 'blank' in feats and rng.random() < 0.3:
         lines.append(rng.choice(['', '# end']))
@@ -218,7 +218,7 @@ FIXED = [
      'strict': False, 'feats': ['ws', 'inner', 'zero', 'cont', 'comment'], 'flags': [], 'perm': None, 'skipfix': []},
     {'k': 'meta', 'stmts': ['Y = X + Z', 'W = Y[-1]'], 'var': '# model\n\nW = Y[-1]\n\n\nY = X + Z\n', 'strict': True, 'feats': ['blank'], 'flags': [], 'perm': [1, 0], 'skipfix': []},
     {'k': 'meta', 'stmts': ['Y = max(X, Z)'], 'var': 'Y = max (\n  X,\n  Z\n)', 'strict': False, 'feats': ['cont', 'call'], 'flags': [], 'perm': None, 'skipfix': []},
-    {'k': 'meta', 'stmts': ["Y = X['a b'] + `x  y`"], 'var': "Y  =  X[ 'a b' ]  +  `x  y`", 'strict': False, 'feats': ['ws', 'inner'], 'flags': [], 'perm': None, 'skipfix': []},
+    {'k': 'meta', 'stmts': ["Y = X['a  b'] + `np.pi *  2`"], 'var': "Y  =  X[ 'a  b' ]  +  `np.pi *  2`", 'strict': False, 'feats': ['ws', 'inner'], 'flags': [], 'perm': None, 'skipfix': []},
 ]
 
 
